@@ -628,6 +628,31 @@ def case_header_box(c):
                               % (fr2.t_start, hdr['tstart'], float(tx)))
                 _check_blimpy(hdr, pay, p, V, 'blimpy.Waterfall')
                 _check_helpers(hdr, pay, p, V, fr2=fr2)
+                if n <= 12 and fr2 is not None:
+                    # the Waterfall-object route, used TWICE on the same reader: building a frame must leave the reader's
+                    # own data and header alone (an independent reader sees every pixel at the same sky frequency), and a
+                    # second frame from it must equal the first
+                    import blimpy
+                    try:
+                        wf = blimpy.Waterfall(p)
+                        d0 = np.array(wf.data, copy=True)
+                        h0 = (wf.header['fch1'], wf.header['foff'], wf.header['nchans'])
+                        fa = stg.Frame(waterfall=wf)
+                        da = np.array(fa.data, copy=True)
+                        fb = stg.Frame(waterfall=wf)
+                        site_w = 'Frame.__init__(waterfall=Waterfall)'
+                        if not np.array_equal(np.asarray(wf.data), d0) or (wf.header['fch1'], wf.header['foff'], wf.header['nchans']) != h0:
+                            V(site_w, 'reader_modified', 'building a Frame from a Waterfall object changed the reader\'s own data/header '
+                              '(foff=%r, %dx%d)' % (c['foff'], m, n))
+                        if not np.array_equal(np.asarray(fb.data), da) or not np.array_equal(np.asarray(fa.data), da):
+                            V(site_w, 'second_frame_differs', 'two frames built from the same Waterfall object differ (foff=%r, %dx%d)'
+                              % (c['foff'], m, n))
+                        if not np.array_equal(da, np.asarray(fr2.data)) or not np.array_equal(np.asarray(fa.fs), np.asarray(fr2.fs)):
+                            V(site_w, 'differs_from_path_route', 'Frame(waterfall=Waterfall object) differs from Frame(waterfall=path)')
+                    except SystemExit:
+                        pass
+                    except Exception as e:
+                        V('Frame.__init__(waterfall=Waterfall)', 'raised', '%s: %s' % (type(e).__name__, e))
                 if c.get('wf_arg'):
                     import blimpy
                     _check_helpers(hdr, pay, blimpy.Waterfall(p), V, fr2=fr2, label='Waterfall object')
